@@ -80,7 +80,16 @@ class Key(PathElement):
 
   def __lt__(self, other: PathElement) -> bool:
     if type(self) is type(other):
-      return self.key < other.key
+      try:
+        return self.key < other.key
+      except TypeError:
+        # Keys of types that Python cannot order (e.g. `1` and `'a'`, or
+        # `None`): order them by type name, then by repr, so that paths can
+        # always be sorted.
+        return (type(self.key).__qualname__, repr(self.key)) < (
+            type(other.key).__qualname__,
+            repr(other.key),
+        )
     else:
       return super().__lt__(other)
 
